@@ -111,6 +111,8 @@ type EventLog struct {
 	max     int
 	n       int
 	verbose bool
+	KeepAll bool // keep every line (determinism re-checks: the first differing line classifies a divergence)
+	All     []string
 	amu     sync.Mutex
 	async   []string
 }
@@ -158,6 +160,9 @@ func (l *EventLog) add(s string) {
 		l.tail = l.tail[:l.max-1]
 	}
 	l.tail = append(l.tail, s)
+	if l.KeepAll {
+		l.All = append(l.All, s)
+	}
 	if l.verbose {
 		fmt.Fprintln(os.Stderr, s)
 	}
